@@ -36,7 +36,7 @@ Qed.
 (* the state a build starts in: the state at rest, in a new epoch, with the request of the build queued *)
 Lemma BInv_start s0 root : HInv s0 -> BInv root None (start_build (iemit (bump s0) (EBuildStart root)) root).
 Proof.
-  intros [(Q1 & Q2 & Q3 & Q4 & Q5 & Q6 & Q7 & Q8 & Q9) Hu Hnc Hdn Hbnd Hsig Hrows].
+  intros [(Q1 & Q2 & Q3 & Q4 & Q5 & Q6 & Q7 & Q8 & Q9) Hnc Hdn Hbnd Hsig Hrows].
   set (st := start_build _ root).
   assert (HR : forall k, rinfo_of st k = rinfo_of s0 k) by (intros k; unfold st, start_build; now autorewrite with iv).
   assert (HK : forall k, kind_of st k = kind_of s0 k) by (intros; unfold kind_of; now rewrite HR).
@@ -58,7 +58,6 @@ Proof.
     rewrite HR in H. destruct (Q9 k) as (_ & _ & _ & _ & Hd). rewrite Hd in H. destruct H. }
   split; [|split].
   - constructor.
-    + unfold st, start_build. autorewrite with iv. exact Hu.
     + rewrite HE. lia.
     + intros k Hc. exfalso. exact (Hnocur k Hc).
     + intros rq Ho. rewrite (HO rq Ho). split; intros t Ht; discriminate.
@@ -103,7 +102,6 @@ Proof.
   split; [|].
   - constructor.
     + exact Q.
-    + apply (b_udb _ _ _ _ _ _ HT).
     + apply (b_nc _ _ _ HC).
     + intros k Hk. destruct (b_dn _ _ _ _ _ _ HS k Hk) as (_ & _ & _ & [(rq & H & _)|(rq & H & _)]); [rewrite Q2 in H|rewrite Q3 in H]; destruct H.
     + intros k. split; [apply (b_bnd _ _ _ HC k (Hidle k))|apply (b_le _ _ _ HC k)].
@@ -136,10 +134,9 @@ End Build.
 
 Lemma HInv_frame s s' : (forall k, rinfo_of s' k = rinfo_of s k) -> quiescent s' -> is_usedb s' = is_usedb s -> is_epoch s' = is_epoch s -> HInv s -> HInv s'.
 Proof.
-  intros HR Q Hu He [H1 H2 H3 H4 H5 H6 H7].
+  intros HR Q Hu He [H1 H3 H4 H5 H6 H7].
   assert (HRes : forall k, res_of s' k = res_of s k) by (intros; unfold res_of; now rewrite HR).
   constructor; auto.
-  - congruence.
   - intros k. rewrite HR. apply H3.
   - intros k. unfold kind_of. rewrite HR. apply H4.
   - intros k. unfold cAt, bAt. rewrite HRes, He. apply H5.
@@ -152,7 +149,6 @@ Lemma HInv_init : HInv init_istate.
 Proof.
   constructor.
   - unfold quiescent. cbn. repeat split; auto; try constructor; discriminate.
-  - reflexivity.
   - intros k. reflexivity.
   - intros k. cbn. discriminate.
   - intros k. cbn. split; lia.
@@ -161,8 +157,8 @@ Proof.
 Qed.
 
 (* Stage 3a: a build from a state at rest that returns a value (no failed assert) returns the clean value of the requested key for
-   the current environment, and leaves the engine in a state at rest again - whatever the schedule.  Restrictions: no rule has
-   discovered dependencies or single-use requests, no database, same rule table, every earlier build completed. *)
+   the current environment, and leaves the engine in a state at rest again - whatever the schedule.  Restrictions: same rule table,
+   every earlier build completed; the engine instance is not restarted. *)
 Theorem build_values_clean env fuel pfuel cfuel s0 root sched sf m : HInv s0 ->
   ibuild rules env F ord syncp fuel pfuel s0 root sched = (RDone sf, m) -> is_fault sf = None ->
   ((rank root < cfuel)%nat -> res_value (res_of sf root) = cv rules env F cfuel root) /\ HInv sf.
@@ -180,6 +176,24 @@ Proof.
   split.
   - intros Hlt. change (res_value (res_of (iemit (commit s) _) root)) with (stored s root). rewrite Hv. unfold cvK. symmetry. now apply (cv_cvk rules env F rank Hrank).
   - apply (HInv_frame s); auto.
+Qed.
+
+(* ... and so is the stored value of every key that is complete in the epoch of this build *)
+Theorem build_values_clean_all env fuel pfuel cfuel s0 root sched sf m : HInv s0 ->
+  ibuild rules env F ord syncp fuel pfuel s0 root sched = (RDone sf, m) -> is_fault sf = None ->
+  forall k, kind_of sf k = KComplete -> res_builtAt (res_of sf k) = is_epoch sf -> (rank k < cfuel)%nat ->
+  res_value (res_of sf k) = cv rules env F cfuel k.
+Proof.
+  intros Hh Hrun Hn. unfold ibuild, ibuild_gen in Hrun. cbn zeta in Hrun.
+  destruct (run_build_gen rules env F ord syncp stall_test fuel pfuel root (iemit (bump s0) (EBuildStart root)) sched) as [r mm] eqn:Hr.
+  destruct r; inversion Hrun. subst sf m. clear Hrun.
+  assert (Hn' : nf s) by (unfold nf in *; now autorewrite with iv in Hn).
+  unfold run_build_gen in Hr.
+  assert (Hb0 : in_build rules env F ord syncp s0 root (start_build (iemit (bump s0) (EBuildStart root)) root)) by (split; [apply (h_q _ _ _ Hh)|apply mss_refl]).
+  destruct (run_loop_final rules env ord F syncp fuel pfuel root s0 _ sched [] s mm Hb0 Hr Hn') as (Hb & _).
+  destruct (BInv_in_build env s0 root s Hh Hb) as (HT & _).
+  intros k Hk Hbe Hlt. change (res_value (res_of (iemit (commit s) _) k)) with (stored s k).
+  rewrite (b_cur _ _ _ _ _ _ HT k (conj Hk Hbe)). unfold ImplVal1.cvK. symmetry. now apply (cv_cvk rules env F rank Hrank).
 Qed.
 
 (* a history of builds on one engine instance: each build has its own environment (the world changed), requested key and schedule;
